@@ -439,6 +439,9 @@ _RANK: dict = {}
 # the parameter: expression}}.  The extracted formulas are functions of the parameters; composed with the call site they are
 # functions of the quantities the specification is written in.
 _SCALAR_SUBST: dict = {}
+# kernel -> reason why the composition with the call site could NOT be made (binding not established, actual not followed):
+# a formula difference of that kernel is then UNDECIDED (assumption (d) of `compare`)
+_SCALAR_UNKNOWN: dict = {}
 
 
 def kernel_scalar_actuals(chk):
@@ -446,6 +449,7 @@ def kernel_scalar_actuals(chk):
     Only arithmetic of step()'s own parameters, attributes of the constants object and numbers is followed; any other
     actual leaves the parameter as it is (the call-site rules E2-* then decide what it denotes)."""
     _SCALAR_SUBST.clear()
+    _SCALAR_UNKNOWN.clear()
     try:
         mod, kmod = chk.mod(U.ADV), chk.mod(U.ADVK)
         cls = mod.cls("PoloidalAdvection")
@@ -476,8 +480,11 @@ def kernel_scalar_actuals(chk):
                 al2[nm_] = v_
         c = resolved_call(splice_property_tuples(fn, c0), al2, kt2)
         formals = [a.arg for a in kmod.func(kname).args.args]
-        b = agree.bind_call(c, formals)
-        if b is None:
+        status, b, bwhy = agree.bind_status(c, formals, kmod.func(kname))
+        if status != "bound":
+            # assumption (d) of `compare` (what the scalar parameters denote) is not established for this kernel
+            _SCALAR_UNKNOWN[general] = (f"the call of {kname} in PoloidalAdvection.step could not be bound to its parameters "
+                                        f"({bwhy}), so what the scalar parameters of the kernel denote is not established")
             continue
         gformals = {a.arg for a in kmod.func(general).args.args}
 
@@ -506,6 +513,10 @@ def kernel_scalar_actuals(chk):
                 try:
                     val = ev(b[f_])
                 except Undecided:
+                    if not isinstance(b[f_], (ast.Name, ast.Attribute, ast.Constant)):
+                        # arithmetic / a call applied by the caller that is not followed: a factor may sit on either side
+                        _SCALAR_UNKNOWN[general] = (f"PoloidalAdvection.step passes `{src(b[f_])[:60]}` as `{f_}` of {kname}, an "
+                                                    "expression that is not followed: what the parameter denotes is not established")
                     continue
                 if val != Symbol(f_, real=True) and any(isinstance(x, ast.BinOp) for x in ast.walk(b[f_])):
                     sub[Symbol(f_, real=True)] = val
@@ -593,6 +604,7 @@ def compare(chk, rule, node, what, code, spec, func, args=None, wrong=(), stale=
                    "stage value)", file=U.ADVK, func=func, facts={"code": str(code)[:400], "spec": str(spec)[:400]})
             return True
         hz = _HAZARDS.get(func)
+        precond = precond or _SCALAR_UNKNOWN.get(func)
         if precond or hz:
             chk.ob(rule, node, what, None, (precond or
                    "the kernel uses constructs that the symbolic execution models only approximately (" + "; ".join(hz[:3]) +
@@ -1131,6 +1143,23 @@ def _without_continue(chk, fn, modname, qname):
     return _scalarise_rows(_expand_constant_fills(_zero_based_sweeps(new)))
 
 
+def _boundary_mode(chk, fn, args, modname, qname):
+    """the symbol of the boolean parameter `nulBound` (null boundary value / equilibrium) the specification of the fill is
+    written in; None, with an UNDECIDED obligation, when the kernel encodes the boundary treatment otherwise (an integer
+    code, an enumeration, several flags): which values of the new parameter mean which of the two historical modes is a
+    contract between the kernel and PoloidalAdvection that is not followed."""
+    nul = args.get("nulBound") if isinstance(args, dict) else None
+    ann = next((a.annotation for a in fn.args.args if a.arg == "nulBound"), None)
+    kind = (ann.value if isinstance(ann, ast.Constant) else src(ann)) if ann is not None else None
+    if nul is not None and kind in (None, "bool"):
+        return nul
+    chk.ob("F1-extraction", fn, qname + " (boundary mode)", None,
+           ("the kernel has no parameter `nulBound`" if nul is None else f"the parameter `nulBound` is declared `{kind}`, not bool")
+           + ": how the boundary treatment (null / equilibrium value outside the domain) is encoded is not followed, so "
+           "the value written for a foot outside the domain is not compared with the specification", file=modname, func=qname)
+    return None
+
+
 def check_explicit(chk, mod, modname=U.ADVK, qname=EXPL):
     fn = _without_continue(chk, mod.func(qname), modname, qname)
     if fn is None:
@@ -1148,7 +1177,7 @@ def check_explicit(chk, mod, modname=U.ADVK, qname=EXPL):
         return
     sweep_ranges(chk, fn, [(fn.body, ex.env)], args, modname, qname)
     T = trace_spec(S)
-    nul = args["nulBound"]
+    nul = _boundary_mode(chk, fn, args, modname, qname)
     # AUDIT (soundness of the stage rules below).  The only OBSERVABLE of the explicit kernel is f; that endPts_k1_* holds the
     # predictor and endPts_k2_* the corrected foot is a convention of today's kernel, not part of the property (a fused
     # kernel may keep them in local scalars, or in other work arrays).  The stage rules are therefore subordinated to the
@@ -1159,7 +1188,7 @@ def check_explicit(chk, mod, modname=U.ADVK, qname=EXPL):
     # reads again afterwards (see `consumed`).
     e2e = None
     try:
-        e2e = layered_equal(unify_shapes(got["f"], args), fill_spec(S, T["th2"], T["r2"], nul))[0]
+        e2e = layered_equal(unify_shapes(got["f"], args), fill_spec(S, T["th2"], T["r2"], nul))[0] if nul is not None else None
     except Undecided:
         e2e = None
     e2e_note = ("the value of f composed end to end (f[i, j] as a function of the kernel's inputs) equals fill(theta_foot, "
@@ -1182,6 +1211,8 @@ def check_explicit(chk, mod, modname=U.ADVK, qname=EXPL):
     # the fill is a function of the foot: compared on the foot the kernel computed (its correctness is the rule above),
     # so that a wrong foot is reported once, by the rule that owns it.  That presupposes that the foot IS what the kernel
     # left in endPts_k2_* (written and read again); otherwise the fill is compared end to end, on the foot of the specification
+    if nul is None:
+        return                      # F1-extraction UNDECIDED has been emitted by _boundary_mode
     if "endPts_k2_q" in consumed and "endPts_k2_r" in consumed:
         th_f, r_f = unify_shapes(got["endPts_k2_q"], args), unify_shapes(got["endPts_k2_r"], args)
         compare(chk, "F1-boundary-fill", fn, "f[i,j] = fill(theta_foot, r_foot)", got["f"], fill_spec(S, th_f, r_f, nul), qname,
@@ -1878,8 +1909,11 @@ def check_implicit(chk, mod, modname=U.ADVK, qname=IMPL):
         return
     sweep_ranges(chk, fn, [(fn.body[k + 1:], ex3.env)], args3, modname, qname)
     S3 = spec_symbols(args3)
+    nul3 = _boundary_mode(chk, fn, args3, modname, qname)
+    if nul3 is None:
+        return
     compare(chk, "F1-boundary-fill", fn, "f[i,j] = fill(theta_foot, r_foot)", got_f,
-            fill_spec(S3, thf, rf, args3["nulBound"]), qname, args3, wrong_fills(S3, thf, rf, args3["nulBound"]))
+            fill_spec(S3, thf, rf, nul3), qname, args3, wrong_fills(S3, thf, rf, nul3))
 
 
 # ---------------------------------------------------------------------------------------------------------
@@ -2828,7 +2862,10 @@ def potential_cache_agreement(chk, cls):
                 r = _storage_of(dest, loc) if dest is not None else None
                 if r is not None:
                     writes.append((m, r[0], r[1], c))
-                continue
+                    continue
+                if b is not None and dest is not None:
+                    continue
+                # destination not bound (`*args` / keywords the binder does not follow): treated like any other hand-off
             # storage of the object handed to anything else may be filled there
             for a in list(c.args) + [k.value for k in c.keywords]:
                 a = a.value if isinstance(a, ast.Starred) else a
@@ -3118,7 +3155,14 @@ def result_in_place(chk, cls, fn, bound, aliases, where):
     sformals = [a.arg for a in fn.args.args][1:]
     for m in [st for st in cls.body if isinstance(st, ast.FunctionDef) and st is not fn]:
         for c in [n for n in ast.walk(m) if isinstance(n, ast.Call) and src(n.func) == "self.step"]:
-            bb = agree.bind_call(c, sformals)
+            # AUDIT: which actual is `f` is established by bind_status on the definition of step() (all actuals written out,
+            # complete signature); a binding that is not followed is UNDECIDED, a misfit is not this rule's subject
+            status_, bb, bwhy_ = agree.bind_status(c, sformals, fn)
+            if status_ == "unknown":
+                chk.ob("E2-result-in-place", c, f"{m.name}: {src(c)[:60]}", None,
+                       f"which argument of this call is the distribution handed to step() is not established: {bwhy_}",
+                       file=U.ADV, func=f"PoloidalAdvection.{m.name}")
+                continue
             if bb is None or "f" not in bb or not isinstance(bb["f"], ast.Call):
                 continue
             v = bb["f"]
@@ -3222,11 +3266,18 @@ def call_site_roles(chk):
                    "the argument list unpacks a sequence / keyword table that is not a local tuple / an unmodified local "
                    "`dict(...)` of step(): binding not decided", **where)
             continue
-        b = agree.bind_call(c, formals)
-        if b is None:
+        # AUDIT (VIOLATED "raises TypeError"): (1) every actual is written out (checked above), (2) `formals` is the complete
+        # signature of the wrapper: no *args / **kwargs / keyword-only / positional-only parameters (checked above) and no
+        # decorator that may replace the signature - both established by agree.bind_status on the wrapper's definition;
+        # 'unknown' is UNDECIDED under the same rule
+        status, b, bwhy = agree.bind_status(c, formals, kfn)
+        if status == "unknown":
+            chk.ob("E2-arity", c0, f"{kname}(...)", None, f"binding of the actuals not established: {bwhy}", **where)
+            continue
+        if status == "misfit":
             chk.ob("E2-arity", c0, f"{kname}(...)", False,
                    f"argument list does not fit the signature ({len(c.args)} positional, keywords "
-                   f"{[k.arg for k in c.keywords]} for {len(formals)} parameters): the call raises TypeError", **where)
+                   f"{[k.arg for k in c.keywords]} for {len(formals)} parameters; {bwhy}): the call raises TypeError", **where)
             continue
         # AUDIT: a parameter without an actual raises TypeError only if the wrapper declares no default for it
         missing = [f for f in formals if f not in b and f not in defaulted]
